@@ -1,6 +1,7 @@
 package checks
 
 import (
+	"context"
 	"fmt"
 	"strings"
 
@@ -196,8 +197,94 @@ func rsScenario(p rsParams) func() {
 	}
 }
 
+// rsAdversaryScenario: calls issued during an outage, with the node coming back at an instant chosen by the
+// explorer (adversary thread, in a script-chosen round of {activity, timers fire}) - in particular between
+// two steps of a reconnect attempt. Once the node is up and every timer has fired, a probe call must be
+// delivered to the current incarnation and answered.
+func rsAdversaryScenario(kind string, calls int, buf uint) func() {
+	return func() {
+		w := world.New(world.Opts{N: 1, Window: 4, SendBuffer: buf})
+		if w.Cfg == nil {
+			return
+		}
+		mk := func() *world.Call {
+			c := w.NewCall(kind)
+			if kind == "GRPCCall" || kind == "Unicast" {
+				c.Node = 1
+			}
+			c.Ctx = context.Background()
+			c.Verdict = func(inv *world.QFInv) { inv.Level = len(inv.Keys); inv.Quorum = len(inv.Keys) >= 1 }
+			return c
+		}
+		w.Invoke(mk())
+		mc.Quiesce()
+		w.FW.Crash(world.Addr(1))
+		mc.Quiesce()
+		var during []*world.Call
+		for i := 0; i < calls; i++ {
+			during = append(during, mk())
+		}
+		mc.GoNamed("client", func() {
+			for _, c := range during {
+				w.Invoke(c)
+			}
+		})
+		back := mc.Choose(3)
+		for r := 0; r < 12; r++ {
+			if r == back {
+				mc.GoLow("restart", func() { w.FW.Restart(world.Addr(1)) })
+			}
+			mc.Quiesce()
+			if mc.FireTimers(nil) == 0 && r > back {
+				break
+			}
+		}
+		mc.Quiesce()
+		name := fmt.Sprintf("restart-adversary/%s/calls=%d/buf=%d", kind, calls, buf)
+		key := classOf(kind)
+		probe := w.NewCall("GRPCCall")
+		probe.Node = 1
+		w.Start(probe)
+		mc.Quiesce()
+		for i := 0; i < 4 && !probe.Returned; i++ {
+			if mc.FireTimers(nil) == 0 {
+				break
+			}
+			mc.Quiesce()
+		}
+		switch {
+		case !probe.Returned:
+			fail("C10/call-never-returns", key+" lock-waiters="+world.LockWaiters(), "%s: the node is up again and every back-off timer has fired, but a new call to it does not return (blocked library threads: %v)", name, world.LibThreads())
+			mc.Outcome("back=%d probe-stuck", back)
+		case probe.Err != nil:
+			fail("C10/call-failed", key, "%s: the node is up again and every back-off timer has fired, but a new call fails: %v", name, probe.Err)
+			mc.Outcome("back=%d probe-failed", back)
+		default:
+			if ev := w.EventsOf("enter", 1); len(ev) == 0 || ev[len(ev)-1].Tok != probe.Tok || ev[len(ev)-1].Inc != 1 {
+				fail("C10/not-contacted", key, "%s: the probe was not handled by the restarted incarnation (%v)", name, ev)
+			}
+			mc.Outcome("back=%d probe-ok", back)
+		}
+		for _, c := range during {
+			if !c.Returned {
+				fail("C10/call-never-returns", key, "%s: call t%d issued during the outage has not returned although the node is up and every timer has fired", name, c.Tok)
+			}
+		}
+	}
+}
+
 func rsInstances(tier string) []Instance {
 	var out []Instance
+	for _, kind := range []string{"GRPCCall", "QuorumCall", "Unicast"} {
+		for _, calls := range []int{1, 2} {
+			for _, buf := range []uint{0, 1} {
+				if buf == 1 && !thorough(tier) && kind != "Unicast" {
+					continue
+				}
+				out = append(out, Instance{Name: fmt.Sprintf("restart-adversary/%s/calls=%d/buf=%d", kind, calls, buf), Bound: 2, Root: rsAdversaryScenario(kind, calls, buf)})
+			}
+		}
+	}
 	maxLen := 4
 	if thorough(tier) {
 		maxLen = 5
@@ -275,7 +362,7 @@ func rsInstances(tier string) []Instance {
 
 func init() {
 	register(&Check{ID: "C10",
-		Rule:        "fault-sequence enumeration: every script of length <= 4 (5 thorough) over {stop, start, call} that ends with a call, for node 1 initially up or down (down at manager creation included), x call kind {RPC, quorum call on 1 or 2 nodes, unicast} x back-off timers {fired to the horizon after every stop/start, never, or - as a free choice after every event - nothing / only the shortest armed timer / all} x dial mode {non-blocking, blocking}; manager with general and per-node metadata, servers with a connect callback; after each call the script observes at quiescence WITHOUT firing a timer; oracle: (a) a call issued while the node listens is delivered to its current incarnation, (b) once that incarnation's handler has returned the call has its reply with no back-off timer fired, (c) every accepted stream carries both metadata entries and triggers the connect callback exactly once; all schedules within the deviation bound inside each event; an outcome is (instance, accepted streams, incarnations)",
+		Rule:        "fault-sequence enumeration: every script of length <= 4 (5 thorough) over {stop, start, call} that ends with a call, for node 1 initially up or down (down at manager creation included), x call kind {RPC, quorum call on 1 or 2 nodes, unicast} x back-off timers {fired to the horizon after every stop/start, never, or - as a free choice after every event - nothing / only the shortest armed timer / all} x dial mode {non-blocking, blocking}; manager with general and per-node metadata, servers with a connect callback; after each call the script observes at quiescence WITHOUT firing a timer; plus a family in which 1-2 calls are issued during an outage and the node is restarted by an adversary thread at any instant of a script-chosen round (in particular between two steps of a reconnect attempt), after which a probe call must be delivered and answered; oracle: (a) a call issued while the node listens is delivered to its current incarnation, (b) once that incarnation's handler has returned the call has its reply with no back-off timer fired, (c) every accepted stream carries both metadata entries and triggers the connect callback exactly once; all schedules within the deviation bound inside each event; an outcome is (instance, accepted streams, incarnations)",
 		Gen:         rsInstances,
 		Assumptions: []string{"a crash breaks the node's streams immediately (fakegrpc), so the client has noticed the outage at the next quiescent point", "'promptly / never waits out a back-off timer' is decided untimed: no virtual timer is fired between the call and the observation"},
 	})
